@@ -30,7 +30,7 @@ CHECKS = {
  'C14': ('exhaustive DFS over all call sequences to depth 4/5 on three/four data sets + Hypothesis op sequences on generated scenes, against a stage model (reference model of the protocol)',
          'The call tree (10 ops) is enumerated completely to the stated depth on data sets with merged groups, a split group and no hits; longer sequences on generated scenes are drawn by Hypothesis and shrunk. Every call is compared with the model verdict and the canonical stage snapshots.',
          'Stage-relative comparison of the annotation columns (slices.isolated, groups.ncomp); deep copies in the DFS.', '5/C14'),
- 'C15': ('Hypothesis defect injection over valid frames against a pure-Python screening model, both directions, with Hypothesis shrinking',
+ 'C15': ('Hypothesis defect injection over valid frames against a pure-Python screening model, both directions, with Hypothesis shrinking; plus coverage-guided fuzzing (atheris/libFuzzer through fuzz_one_input) of the same target',
          'Thousands of frames per run with combinations of the documented defects, near-misses, coercible dtype variants and layouts; accept/refuse must equal the model verdict, results are compared value by value, idempotence and argument immutability are checked.',
          'Trusts the screening model in vlib/oracles.py (30 lines).', '5/C15'),
  'C16': ('metamorphic pairs under drawn bijective renamings (incl. order-reversing and confusable names) applied to frame and exclusion list, bit-exact',
@@ -59,7 +59,7 @@ CHECKS = {
  'C06': ('Hypothesis merge-chain / split-candidate scenes x separation, percentile, look-back, exclusion, row order; metamorphic no-merge twin for non-triviality; harness-side spy for the no-re-merge precondition',
          'Group clause checked on every adjacent pair of every case; layer clause on every split group whose raw mixture count equals its final count (observed by wrapping layer.best_gmm / ncomp_from_gmm at run time). A twin run without merging measures how often merging really happened.',
          'Trusts the spy alignment (cases where it cannot be aligned are skipped and counted) and bin lookup in vlib/oracles.py.', '5/C06'),
- 'C08': ('Hypothesis generation over all scene classes, anomalies and all parameter leaves + exception bucketing; refusal domain checked for AmpycloudError-only',
+ 'C08': ('Hypothesis generation over all scene classes, anomalies, index layouts and all parameter leaves + exception bucketing; refusal domain checked for AmpycloudError-only; plus coverage-guided fuzzing (atheris/libFuzzer through fuzz_one_input, ampycloud instrumented) of the same target',
          'Any exception on the valid domain is a failure, bucketed by (type, innermost ampycloud frame) so distinct crashes are reported separately; refusals (illegal frames, out-of-order calls) must raise AmpycloudError and nothing else. "Never crashes" can only be searched, not established.',
          'Parameter domains as listed in DESIGN.md section 3; parameter-value refusals are not enforced.', '5/C08'),
  'C17': ('exhaustive enumeration + Hypothesis lists against an independent 1-3-5 fold (reference model)',
@@ -103,6 +103,8 @@ def main():
             'add_only': True,
         },
         'engines': [
+            {'name': 'atheris', 'path': 'vlib/fuzz_atheris.py', 'serves_properties': ['C08', 'C15'],
+             'kind_free_text': 'atheris 3.1 / libFuzzer (installed by setup.sh into /verif/.deps from the offline wheelhouse) driving the property\'s Hypothesis strategy through fuzz_one_input with ampycloud instrumented for branch coverage; the oracle (check(case)) sits inside the target; skipped with a note in the evidence if atheris cannot be imported'},
             {'name': 'vlib', 'path': 'vlib/runner.py', 'serves_properties': sorted(CHECKS),
              'kind_free_text': 'Hypothesis 6.168 (seeded, database=None) sharded over 16 processes + itertools enumeration of finite sub-domains; collect-bucket-minimise failure handling; replay files bypass Hypothesis'},
         ],
